@@ -189,8 +189,9 @@ func decodeStringNoCopy(t *tType, b []byte, p unsafe.Pointer) (i int, err error)
 		return
 	}
 	i += 4
+	isBinary := t.Tag == defs.T_binary || (t.IsPointer && t.V.Tag == defs.T_binary) // p points to the value
 	if l == 0 {
-		if t.Tag == defs.T_binary {
+		if isBinary {
 			*(*[]byte)(p) = []byte{}
 		} else {
 			*(*string)(p) = ""
@@ -202,7 +203,7 @@ func decodeStringNoCopy(t *tType, b []byte, p unsafe.Pointer) (i int, err error)
 		return i, newSizeExceedsBufferException(l, len(b)-i)
 	}
 
-	if t.Tag == defs.T_binary {
+	if isBinary {
 		*(*[]byte)(p) = unsafe.Slice(&b[i], l)
 	} else {
 		*(*string)(p) = unsafe.String(&b[i], l)
@@ -228,8 +229,9 @@ func (d *tDecoder) decodeType(t *tType, b []byte, p unsafe.Pointer, maxdepth int
 			return 0, errNegativeSize
 		}
 		i := 4
+		isBinary := t.Tag == defs.T_binary || (t.IsPointer && t.V.Tag == defs.T_binary) // p points to the value
 		if l == 0 {
-			if t.Tag == defs.T_binary {
+			if isBinary {
 				*(*[]byte)(p) = []byte{}
 			} else {
 				*(*string)(p) = ""
@@ -242,7 +244,7 @@ func (d *tDecoder) decodeType(t *tType, b []byte, p unsafe.Pointer, maxdepth int
 		}
 
 		x := d.Malloc(l, 1, 0)
-		if t.Tag == defs.T_binary {
+		if isBinary {
 			*(*[]byte)(p) = unsafe.Slice((*byte)(x), l)
 		} else {
 			*(*string)(p) = unsafe.String((*byte)(x), l)
